@@ -103,7 +103,10 @@ static int hm_add(KSI_DataHasher *hasher, const void *data, size_t data_length) 
 	st = hasher->hashContext;
 	if (data_length > 0) {
 		if (data_length > HM_LOG_MAX || st->len > HM_LOG_MAX - data_length) { VERIF_hm_overflow = 1; return KSI_OK; }
-		memcpy(st->log + st->len, data, data_length);
+		/* bounded byte loop instead of memcpy: a symbolic-length memcpy makes CBMC's encoder explode */
+		for (size_t i = 0; i < HM_LOG_MAX; i++) {
+			if (i < data_length) st->log[st->len + i] = ((const unsigned char *)data)[i];
+		}
 		st->len += data_length;
 	}
 	return KSI_OK;
